@@ -118,7 +118,9 @@ structure PLib where
 def exRef (r : TRef) : PRef := ⟨r.layer, r.track⟩
 def exCross (c : Cross) : PCross := ⟨some (exRef c.track), some (exRef c.cross)⟩
 def exAssign (a : Assign) : PAssign := ⟨a.net, some (exCross a.at_)⟩
-def cellName (tbl : List Cell) (i : Nat) : Bytes := (tbl[i]?.map (·.name)).getD []
+/-- the cell behind a `Ptr<Cell>`; indices outside the table do not occur (a `Ptr` always points to a cell) -/
+def getC (tbl : List Cell) (i : Nat) : Cell := tbl[i]?.getD ⟨[], none, none⟩
+def cellName (tbl : List Cell) (i : Nat) : Bytes := (getC tbl i).name
 def exInst (tbl : List Cell) (i : Inst) : PInst :=
   ⟨i.name, some (some (.loc (cellName tbl i.cell))), i.rh, i.rv, some (some (.abs i.x i.y))⟩
 def exLayout (tbl : List Cell) (l : Layout) : PLayout :=
@@ -128,19 +130,19 @@ def exCell (tbl : List Cell) (c : Cell) : PCell := ⟨c.name, c.layout.map (exLa
 
 /-- direct dependencies of a cell: the targets of its layout's instances, in order -/
 def deps (tbl : List Cell) (i : Nat) : List Nat :=
-  match tbl[i]? with
-  | some c => match c.layout with
-    | some l => l.insts.map (·.cell)
-    | none => []
+  match (getC tbl i).layout with
+  | some l => l.insts.map (·.cell)
   | none => []
 
 def exportOrdered (lib : Lib) (ord : List Nat) : PLib :=
-  ⟨lib.name, ord.filterMap fun i => (lib.table[i]?).map (exCell lib.table)⟩
+  ⟨lib.name, ord.map fun i => exCell lib.table (getC lib.table i)⟩
 
-def exportLib (lib : Lib) : Option PLib :=
-  match Dep.order (deps lib.table) (lib.table.length + 1) lib.items with
+def exportLib' (lib : Lib) (fuel : Nat) : Option PLib :=
+  match Dep.order (deps lib.table) fuel lib.items with
   | .ok ord => some (exportOrdered lib ord)
   | _ => none
+
+def exportLib (lib : Lib) : Option PLib := exportLib' lib (lib.table.length + 1)
 
 /-! ### import -/
 /-- `Outline::from_prim_pitches` -/
@@ -162,9 +164,10 @@ def imOutline (o : POutline) : Option (List Int × List Int × Nat) := do
   if outlineOk o.x o.y then pure (o.x, o.y, m) else none
 
 /-- name → index of the LAST cell imported so far with that name -/
-def lookup (names : List Bytes) (n : Bytes) : Option Nat :=
-  let idxs := (List.range names.length).filter fun i => names[i]? == some n
-  idxs.getLast?
+def lookupFrom (n : Bytes) : List Bytes → Nat → Option Nat → Option Nat
+  | [], _, best => best
+  | m :: ms, i, best => lookupFrom n ms (i + 1) (if m == n then some i else best)
+def lookup (names : List Bytes) (n : Bytes) : Option Nat := lookupFrom n names 0 none
 
 def imInst (names : List Bytes) (p : PInst) : Option Inst := do
   let r ← p.cell
@@ -191,14 +194,19 @@ def imAbs (p : PAbs) : Option Abs := do
   let (x, y, m) ← imOutline o
   pure ⟨p.name, x, y, m⟩
 
-def imCell (names : List Bytes) (p : PCell) : Option Cell := do
-  let lay ← match p.layout with
-    | some l => (imLayout names l).map some
-    | none => some none
-  let ab ← match p.abs with
-    | some a => (imAbs a).map some
-    | none => some none
-  pure ⟨p.name, lay, ab⟩
+def imLayoutOpt (names : List Bytes) : Option PLayout → Option (Option Layout)
+  | some l => (imLayout names l).map some
+  | none => some none
+def imAbsOpt : Option PAbs → Option (Option Abs)
+  | some a => (imAbs a).map some
+  | none => some none
+
+def imCell (names : List Bytes) (p : PCell) : Option Cell :=
+  match imLayoutOpt names p.layout with
+  | some lay => match imAbsOpt p.abs with
+    | some ab => some ⟨p.name, lay, ab⟩
+    | none => none
+  | none => none
 
 /-- cells are imported in message order; `acc` are the cells imported so far -/
 def imCells : List PCell → List Cell → Option (List Cell)
